@@ -89,17 +89,25 @@ Bytes(us, i) == IF i > Len(us) THEN <<>> ELSE Expand(us[i]) \o Bytes(us, i + 1)
 (***************************************************************************)
 (*        A.2  reference: well-formed UTF-8 and the sanitised input        *)
 (***************************************************************************)
-WF2 == {<<"L2", a>> : a \in Cont}
-WF3 == {<<"E0", "cA", b>> : b \in Cont} \cup {<<"L3", a, b>> : a \in Cont, b \in Cont}
-       \cup {<<"ED", a, b>> : a \in {"c8", "c9"}, b \in Cont}
-WF4 == {<<"F0", a, b, c>> : a \in {"c9", "cA"}, b \in Cont, c \in Cont}
-       \cup {<<"L4", a, b, c>> : a \in Cont, b \in Cont, c \in Cont}
-       \cup {<<"F4", "c8", b, c>> : b \in Cont, c \in Cont}
-WellFormed(s) == (Len(s) = 1 /\ s[1] \in Ascii) \/ s \in WF2 \/ s \in WF3 \/ s \in WF4
+\* Unicode Table 3-7 (well-formed UTF-8 byte sequences), one row per first-byte class:
+\* first byte, admissible second bytes, length; all further bytes are continuation bytes.
+Utf8Table == {[f |-> "L2", s |-> Cont,         n |-> 2],
+              [f |-> "E0", s |-> {"cA"},       n |-> 3],     \* 80..9F would be an overlong form
+              [f |-> "L3", s |-> Cont,         n |-> 3],
+              [f |-> "ED", s |-> {"c8", "c9"}, n |-> 3],     \* A0..BF would be a surrogate
+              [f |-> "F0", s |-> {"c9", "cA"}, n |-> 4],     \* 80..8F would be an overlong form
+              [f |-> "L4", s |-> Cont,         n |-> 4],
+              [f |-> "F4", s |-> {"c8"},       n |-> 4]}     \* 90..BF would exceed U+10FFFF
+\* bs[i .. i+w-1] is one well-formed character
+WellFormedAt(bs, i, w) ==
+  \/ w = 1 /\ bs[i] \in Ascii
+  \/ \E row \in Utf8Table :
+        /\ w = row.n /\ bs[i] = row.f /\ bs[i + 1] \in row.s
+        /\ \A j \in (i + 2)..(i + w - 1) : bs[j] \in Cont
 
 \* width of the well-formed sequence starting at i; 0 = bs[i] is an offending byte
 RefWidth(bs, i) ==
-  LET W == {w \in 1..4 : i + w - 1 <= Len(bs) /\ WellFormed(SubSeq(bs, i, i + w - 1))}
+  LET W == {w \in 1..4 : i + w - 1 <= Len(bs) /\ WellFormedAt(bs, i, w)}
   IN  IF W = {} THEN 0 ELSE CHOOSE w \in W : TRUE
 
 FFFD == <<"FFFD">>   \* a decoded character is the tuple of its byte classes, or FFFD
@@ -220,7 +228,9 @@ RECURSIVE AccRun(_, _, _)
 AccRun(st, ss, i) == IF i > Len(ss) THEN st ELSE AccRun(AccStep(st, ss[i]), ss, i + 1)
 Accept(ss) == AccRun("start", ss, 1) = "end"
 
-ValidUtf8(ss) == LET cs == Classes(ss, 1) IN \A i \in 1..Len(Widths(cs, 1)) : Widths(cs, 1)[i] # 0
+RECURSIVE AllWellFormed(_, _)
+AllWellFormed(cs, i) == i > Len(cs) \/ LET w == RefWidth(cs, i) IN w # 0 /\ AllWellFormed(cs, i + w)
+ValidUtf8(ss) == AllWellFormed(Classes(ss, 1), 1)
 
 (***************************************************************************)
 (* A.6  JSON string decoder over symbols (what encoding/json computes:     *)
@@ -251,7 +261,8 @@ Kinds(ts, i) ==
   ELSE (CASE ts[i].k = "raw" -> <<"v">> [] ts[i].k = "esc" -> <<"e">> [] ts[i].k = "u00" -> <<"x">>
           [] ts[i].k = "rep" -> <<"r">> [] OTHER -> <<>>) \o Kinds(ts, i + 1)
 
-StrInputs == UNION {{s \in [1..n -> AllUnits] : n > 0 => s[1] \in FirstUnits} : n \in 0..MaxLen}
+\* the string inputs: all unit sequences of length <= MaxLen (first unit restricted for sharding)
+IsStrInput(s, n) == s \in [1..n -> AllUnits] /\ (n > 0 => s[1] \in FirstUnits)
 
 (***************************************************************************)
 (*                B.  scalar encoders over boundary classes                *)
@@ -331,7 +342,7 @@ TimeCases == {Case("M", "Time", "", t, "str", "exact") : t \in TimeClasses}
              \cup {Case("M", "Time", "", "zero", "null", "none")}     \* documented: zero time is null
 DurationClasses == {"zero", "ns", "sub-second", "seconds", "seconds-frac", "minutes", "hours", "days",
                     "weeks", "months", "years", "negative", "mixed", "maxInt64", "minInt64",
-                    "unit-minus-ns", "years-minus-ns"}
+                    "unit-minus-ns", "boundary-minus-ns"}
 DurationCases == {Case("M", "Duration", "", d, "str", "exact") : d \in DurationClasses}
 UUIDClasses == {"v4", "v1", "max", "random-bits"}
 UUIDCases == {Case("M", "UUID", "", u, "str", "exact") : u \in UUIDClasses}
@@ -355,7 +366,7 @@ ScalarCases == IntMarshalCases \cup IntUnmarshalCases \cup FloatMarshalCases \cu
 Init ==
   /\ pc = "in"
   /\ res = <<>>
-  /\ \/ kind = "S" /\ inp \in StrInputs
+  /\ \/ kind = "S" /\ \E n \in 0..MaxLen : inp \in [1..n -> AllUnits] /\ IsStrInput(inp, n)
      \/ kind = "C" /\ inp \in ScalarCases
 
 WriteQuotedString ==
@@ -389,7 +400,7 @@ ThmAccepted  == StrDone => Accept(Flat(res, 1))
 ThmValidUtf8 == StrDone => ValidUtf8(Flat(res, 1))
 ThmDecodes   == StrDone => Dec(Flat(res, 1)) = Sanitise(Bytes(inp, 1), 1)
 \* the two formulations of UTF-8 decoding agree (RuneAt vs the well-formed table)
-ThmRuneAtIsRef == kind = "S" =>
+ThmRuneAtIsRef == (kind = "S" /\ pc = "in") =>
    LET bs == Bytes(inp, 1) IN \A i \in 1..Len(bs) :
        LET r == RuneAt(bs, i) IN (r.ok => RefWidth(bs, i) = r.w) /\ (~r.ok => RefWidth(bs, i) = 0)
 
